@@ -38,8 +38,8 @@ func init() {
 			Old: "\t\tcase 2:\n\t\t\t// two bytes, 3 or 4 digits\n\t\t\tval = uint32(d[pos])<<8 +\n\t\t\t\tuint32(d[pos+1])", New: "\t\tcase 2:\n\t\t\t// two bytes, 3 or 4 digits\n\t\t\tval = uint32(d[pos]) +\n\t\t\t\tuint32(d[pos+1])<<8",
 			Expect: "C11-R3 frac-leftover@decimal"},
 		Variant{ID: "c11-r1-dot-without-zero", Prop: "C11", File: "replication/binlog_event_rbr.go",
-			Old: "\t\tif !flag {\n\t\t\ttxt.WriteByte('0')\n\t\t}\n\n\t\t// now see if we have a fraction\n\t\tif scale == 0 {\n\t\t\treturn txt.Bytes(), l, nil\n\t\t}\n",
-			New: "\t\t// now see if we have a fraction\n\t\tif scale == 0 {\n\t\t\treturn txt.Bytes(), l, nil\n\t\t}\n\n\t\tif !flag {\n\t\t\ttxt.WriteByte('0')\n\t\t}\n",
+			Old:    "\t\tif !flag {\n\t\t\ttxt.WriteByte('0')\n\t\t}\n\n\t\t// now see if we have a fraction\n\t\tif scale == 0 {\n\t\t\treturn txt.Bytes(), l, nil\n\t\t}\n",
+			New:    "\t\t// now see if we have a fraction\n\t\tif scale == 0 {\n\t\t\treturn txt.Bytes(), l, nil\n\t\t}\n\n\t\tif !flag {\n\t\t\ttxt.WriteByte('0')\n\t\t}\n",
 			Expect: "C11-R1 written@decimal"},
 		Variant{ID: "c11-r2-space-padding", Prop: "C11", File: "replication/binlog_event_rbr.go",
 			Old: "\t\t\t\tfmt.Fprintf(txt, \"%d\", val)\n\t\t\t\tflag = true", New: "\t\t\t\tfmt.Fprintf(txt, \"%9d\", val)\n\t\t\t\tflag = true",
@@ -576,7 +576,6 @@ func runC11(a *A) {
 	a.Extra["specialisations"] = len(specs)
 	a.Extra["distinct_cases"] = counts["specs"]
 }
-
 
 // starWidth rewrites a "%0*d" verb whose width argument is a constant into the fixed-width verb ("%0*d", "4,x" -> "%04d", "x").
 func starWidth(format, args string) (string, string) {
